@@ -160,6 +160,115 @@ pub fn gen_history(rng: &mut Rng, keys: &[Vec<u8>], max_ops: usize, per_block: u
     steps
 }
 
+/// Post-pass over a generated history, using the model position of every cursor: relative macro
+/// steps stop a little after the end of the file instead of far beyond it, and most relative moves
+/// that would fall into the "after None" window (where nothing is judged) become absolute moves.
+pub fn tune_history(rng: &mut Rng, keys: &[Vec<u8>], steps: &mut Vec<CursorStep>) {
+    #[derive(Clone, Copy)]
+    struct M {
+        pos: Option<usize>,
+        window: bool,
+    }
+    let n = keys.len();
+    let mut curs = vec![M { pos: None, window: false }];
+    for st in steps.iter_mut() {
+        let idx = st.cur as usize % curs.len();
+        let mut c = curs[idx];
+        let relative = matches!(st.op, Op::Next | Op::Prev | Op::NextN(_) | Op::PrevN(_) | Op::Current);
+        if c.window && relative && rng.chance(2, 3) {
+            st.op = match rng.below(4) {
+                0 => Op::First,
+                1 => Op::Last,
+                2 if n > 0 => Op::Ge(B(keys[rng.usize_below(n)].clone())),
+                _ if n > 0 => Op::Le(B(keys[rng.usize_below(n)].clone())),
+                _ => Op::Reset,
+            };
+        }
+        let set = |c: &mut M, r: Option<usize>| match r {
+            Some(i) => {
+                c.pos = Some(i);
+                c.window = false;
+            }
+            None => c.window = true,
+        };
+        match &mut st.op {
+            Op::First => set(&mut c, if n > 0 { Some(0) } else { None }),
+            Op::Last => set(&mut c, n.checked_sub(1)),
+            Op::Ge(q) => {
+                let i = keys.partition_point(|k| k.as_slice() < q.0.as_slice());
+                set(&mut c, if i < n { Some(i) } else { None })
+            }
+            Op::Le(q) => {
+                let i = keys.partition_point(|k| k.as_slice() <= q.0.as_slice());
+                set(&mut c, i.checked_sub(1))
+            }
+            Op::Eq(q) => {
+                let i = keys.partition_point(|k| k.as_slice() < q.0.as_slice());
+                set(&mut c, if i < n && keys[i] == q.0 { Some(i) } else { None })
+            }
+            Op::Reset => c = M { pos: None, window: false },
+            Op::Current => {}
+            Op::CloneFrom => {
+                if curs.len() < 4 {
+                    curs.push(c);
+                } else {
+                    let l = curs.len() - 1;
+                    curs[l] = c;
+                }
+            }
+            Op::Next | Op::NextN(_) => {
+                if !c.window {
+                    let remaining = match c.pos {
+                        None => n,
+                        Some(i) => n - 1 - i,
+                    };
+                    let k = match &mut st.op {
+                        Op::NextN(k) => {
+                            *k = (*k).min(remaining as u32 + rng.below(3) as u32).max(1);
+                            *k as usize
+                        }
+                        _ => 1,
+                    };
+                    if k > remaining {
+                        c.window = true;
+                        c.pos = if n > 0 { Some(n - 1) } else { None };
+                    } else {
+                        c.pos = Some(match c.pos {
+                            None => k - 1,
+                            Some(i) => i + k,
+                        });
+                    }
+                }
+            }
+            Op::Prev | Op::PrevN(_) => {
+                if !c.window {
+                    let remaining = match c.pos {
+                        None => n,
+                        Some(i) => i,
+                    };
+                    let k = match &mut st.op {
+                        Op::PrevN(k) => {
+                            *k = (*k).min(remaining as u32 + rng.below(3) as u32).max(1);
+                            *k as usize
+                        }
+                        _ => 1,
+                    };
+                    if k > remaining {
+                        c.window = true;
+                        c.pos = if n > 0 { Some(0) } else { None };
+                    } else {
+                        c.pos = Some(match c.pos {
+                            None => n - k,
+                            Some(i) => i - k,
+                        });
+                    }
+                }
+            }
+        }
+        curs[idx] = c;
+    }
+}
+
 pub fn gen_c03(rng: &mut Rng, tier: Tier) -> Case {
     let mut spec = if rng.chance(3, 4) { gen::gen_layered_spec(rng, tier) } else { gen::gen_file_spec(rng, tier, true) };
     spec.knobs.ctor = 0;
@@ -179,7 +288,10 @@ pub fn gen_c03(rng: &mut Rng, tier: Tier) -> Case {
     let avg = if ents.is_empty() { 1 } else { ents.iter().map(|(k, v)| k.0.len() + v.0.len() + 2).sum::<usize>() / ents.len() };
     let per_block = (bsz / avg.max(1)).max(1);
     let max_ops = if tier == Tier::Quick { 60 } else { 200 };
-    let steps = gen_history(rng, &keys, max_ops, per_block);
+    let mut steps = gen_history(rng, &keys, max_ops, per_block);
+    if rng.chance(4, 5) {
+        tune_history(rng, &keys, &mut steps);
+    }
     let mut env = gen::gen_env(rng, true);
     if rng.chance(1, 4) {
         // transient-fault family: one read or seek of the source fails somewhere in the history
